@@ -49,7 +49,7 @@ def cases(draw):
     shifts = [-18., -9., 9.]
     if "R13" in known_ids("known"):
         from . import c08
-        if c08.om2_joins_inequivalent_sites(calc):
+        if c08.om2_joins_inequivalent_sites(calc) or (c08.EXCLUDE_R41 and c08.low_symmetry_orbit(calc)):
             shifts = [9.]   # large omega2 on such crystals is known finding R13 (reported under C08)
     data = draw(vs.datasets(calc, sol=not vs_exclude_r1(), om2shift=(draw(st.sampled_from(shifts)) if extreme else 0.), spread=1.0))
     return {"kind": "vacancy", "setup": setup, "data": data, "extreme": extreme}
